@@ -88,7 +88,7 @@ def run(res):
     res.cov["distribution"] = dist
     res.cov["model_vs_impl_disagreements"] = len(ties)
     res.cov["impl_vs_spec_disagreements"] = len(concrete)
-    res.cov["rule"] = ("corr-mig: hand-written corner corpus first, then random files with legacy/new/mixed spellings, tabs/spaces indentation, CRLF, "
+    res.cov["rule"] = ("corr-mig: hand-written corner corpus first (incl. a legacy marker as the unterminated LAST line of LF and CRLF files), then random files with legacy/new/mixed spellings, tabs/spaces indentation, CRLF, "
                        "missing final newline, look-alikes in raw strings, block comments, interpreted strings, trailing comments, prose, expressions with '=' and '+'; "
                        "history per file: generate, dry-run, migrate, migrate, generate; the real bytes/counts are compared with Mig.migrate (modeldrv) and with the "
                        "independent expectation (the generator of the file knows which lines are marker comments); non-trivial = at least one line rewritten")
